@@ -120,3 +120,10 @@ claim('C10',
        'size_t products assumed not to wrap (max*objsize representable). Model tied to code by differential execution, not by a C semantics.',
   technique='Rocq refinement proof (representation relation block = cells(list) ++ junk, loop lemmas for the shift and the in-place reversal, lia with div/mod for the int/size_t conversions); extracted-model and extracted-spec correspondence',
   design='5.10')
+claim('C17',
+  text='Decoder half: theorems for ALL NUL-terminated inputs - the buffer-level models of qurl_decode/qbase64_decode/qhex_decode (whole buffer incl. terminator, a read outside it = Crash, explicit fuel) return Ok with fuel |s|+1 whatever follows the terminator, equal the string-level decoders and yield at most |s| bytes '
+       '(C17_url/hex/b64_decode_safe); truncated %-escapes and odd-length hex, which the pinned code read past, were repaired in /repo. Tie: all strings up to length 5/6 over each format\'s significant alphabet plus random/damaged inputs, in exact-size buffers ending at an inaccessible page, under a watchdog, '
+       'compared with the extracted model. Parser half (INI-style and Apache-style parsers): see the notes of work package c20 when merged.',
+  note='Partial by nature: stack depth, file handling and fgets chunking are runtime behaviour outside the models. Trusted as C16.',
+  technique='Rocq proof over buffer-level loop models with Crash/Fuel + guard-page differential execution',
+  design='5.17')
